@@ -108,7 +108,7 @@ def one(case, pl):
     acts = {S[s]: tuple(A[a] for a in al) for s, al in enumerate(c["actions"])}
     absb = {S[s]: bool(x) for s, x in enumerate(c["absorbing"])}
     init = DictDistribution({S[s]: fl(p) for s, p in c["init"]})
-    gamma = fl(c["gamma"])
+    gamma = int(Fraction(c["gamma"])) if case.get("gamma_int") else fl(c["gamma"])
     log = []
 
     class TableMDP(TabularMarkovDecisionProcess):
